@@ -16,6 +16,7 @@ import (
 	"fmt"
 	"os"
 	"time"
+	"math"
 	"sort"
 	"strings"
 	"sync"
@@ -202,6 +203,14 @@ func Check(r *ev.Run, replay string) {
 		r.EngineError(msg)
 		return
 	}
+	for _, f := range longFamilies()[1:] {
+		n, msg := longObjectSort(r, f, longN, report)
+		if msg != "" {
+			r.EngineError(msg)
+			return
+		}
+		nLong3 += n
+	}
 	tick("D object.Sort long")
 	zeroAt := []int{0, 6, 12}
 	if r.Thorough() {
@@ -235,7 +244,7 @@ func Check(r *ev.Run, replay string) {
 		r.Set("observations_outside_statement", map[string]any{"count": len(notes), "classes": classes, "first": notes[0]})
 	}
 	r.Set("bound_completed", maxLen)
-	r.Set("rule", fmt.Sprintf("A: all %d ordered pairs x %d operators and all %d triples over the 45-value pool through the object API; B: the same pairs and triples through scripts run by risor.Eval (literal operands, 45 scripts of %d guarded expressions) plus cell-by-cell agreement with A; C: every list of length 0..%d (bool: 0..%d) over each of %d families of 6 values (%d lists) through sorted, sorted twice, list.sort, set(), set literal, `in`, bool()/!! vs len, and object.Sort; D: every list of length 13 over {1, 1.0, 0} (3^13) through object.Sort and, through sorted()/list.sort() in scripts, those with exactly one 0 at a position in %v and every arrangement of 1 / 1.0 elsewhere (%d lists; Go's sort changes algorithm above 12 elements). distinct = distinct (level, type pair, answers of all %d operators) rows and distinct (family, outcome classes, sorted result) tuples",
+	r.Set("rule", fmt.Sprintf("A: all %d ordered pairs x %d operators and all %d triples over the 45-value pool through the object API; B: the same pairs and triples through scripts run by risor.Eval (literal operands, 45 scripts of %d guarded expressions) plus cell-by-cell agreement with A; C: every list of length 0..%d (bool: 0..%d) over each of %d families of 6 values (%d lists) through sorted, sorted twice, list.sort, set(), set literal, `in`, bool()/!! vs len, and object.Sort; D: every list of length 13 over {1, 1.0, 0}, over {0.0, -0.0, -1.0} and over {[1], [1.0], [0]} (3^13 each) through object.Sort and, for the first family, through sorted()/list.sort() in scripts, those with exactly one 0 at a position in %v and every arrangement of 1 / 1.0 elsewhere (%d lists; Go's sort changes algorithm above 12 elements). distinct = distinct (level, type pair, answers of all %d operators) rows and distinct (family, outcome classes, sorted result) tuples",
 		stA.pairs, nOps, stA.triples, len(vals)*nOps, maxLen, maxLen+4, len(famSizes), totalLists, zeroAt, nLong2, nOps))
 	r.Sample(map[string]any{"level": "object", "a": "int(2^53+1)", "b": "float(2^53)", "answers": objT.row(7, 14)})
 	r.Sample(map[string]any{"level": "script", "a": "int(2^53+1)", "b": "float(2^53)", "answers": scrT.row(7, 14), "expr": pairExprs(vals[7].Src, vals[14].Src)[oLT]})
@@ -295,8 +304,15 @@ func (fi *famInfo) objectSort(items []int, maxLen int) (out []finding) {
 }
 
 func longFamilies() []family {
+	li := func(name string, o object.Object) val {
+		return val{name, name, object.NewList([]object.Object{o})}
+	}
 	return []family{
 		{"long-num3", []val{vInt(1), vFloat(1), vInt(0)}},
+		// values of ONE type that are == and still distinguishable: the two float zeros, and lists
+		// with an int and a float element (a sort that is only stable for mixed-type input shows here)
+		{"long-float-zeros", []val{vFloat(0), {"-0.0", "(0.0 * -1.0)", object.NewFloat(math.Copysign(0, -1))}, vFloat(-1)}},
+		{"long-lists", []val{li("[1]", object.NewInt(1)), li("[1.0]", object.NewFloat(1)), li("[0]", object.NewInt(0))}},
 	}
 }
 
